@@ -4,6 +4,10 @@ from lib.common import coq_props, coq_cases, zl, Raw
 from lib import world, family, gen_tie, obswalk
 
 
+TIMED = ("node-folder-restore", "node-folder-scan", "node-file-restore", "node-service-fix", "node-service-restart", "node-application-fix",
+         "node-os-scan", "node-shutdown", "node-startup", "node-reset", "node-application-install")
+
+
 def db_story(game, rng):
     """a multi-tick history that needs three specific requests in order: delete the database file, fix the service, wait."""
     out = []
@@ -90,6 +94,7 @@ def walk(ck, name, cfg, episodes, coq_in, long_idle=False):
     scaled_sum = 0
     n_actions = env.action_space.n
     del obswalk.PENDING[:]
+    repeat_next = None
     for ep in range(episodes):
         # how this episode ends: at the limit, abandoned mid-way, or stepped past the limit
         kind = rng.choice(["to-limit", "abandoned", "abandoned", "past-limit"]) if not scheduled else "abandoned"
@@ -116,6 +121,12 @@ def walk(ck, name, cfg, episodes, coq_in, long_idle=False):
             if reqs:
                 game.apply_agent_actions = patched
             a = rng.randrange(n_actions) if not long_idle else 0
+            if repeat_next is not None:
+                a, repeat_next = repeat_next, None        # the same timed action again while the first is still in progress
+            elif not long_idle:
+                nm = env.agent.action_manager.action_map.get(a, ("", {}))[0]
+                if nm in TIMED and rng.random() < 0.6:
+                    repeat_next = a
             if removal_actions and ep % 2 == 1 and 1 <= t <= len(removal_actions):
                 a = removal_actions[t - 1]
             ctx["ops"].append(a)
